@@ -322,6 +322,11 @@ def workload():
     F.takes_dict({"a": 1, "b": "s"}, 2, flag=True, z=1); J["takes_dict"] = [("return", [{"a": 1, "b": "s"}])]
     F.star_then_kwonly(1, "x", "y", sep=None); J["star_then_kwonly"] = [("return", None)]
     asyncio.run(F.coro_awaiting(4)); J["coro_awaiting"] = [("return", [4])]
+    # container then element type (and back), three-level super() chains reached through the leaf first, '/' with *args/**kwargs
+    list(F.gen_mixed(0)); J["gen_mixed"] = [("yield", [1, 2]), ("yield", 3), ("yield", (1, "x")), ("yield", "y"), ("yield", F.A), ("yield",), ("return", None)]
+    F.L3().chained(1); J["chained"] = [("return", 1), ("return", 1), ("return", 1)]
+    F.L3.cchained(1); J["cchained"] = [("return", 1), ("return", 1), ("return", 1)]
+    F.posonly_star(1, 2, 3, z=4); J["posonly_star"] = [("return", 1)]
 
 
 _RECORDED = None
